@@ -629,6 +629,9 @@ def incremental_rule(ctx):
 
 
 def run(ctx):
+    from . import c05 as _c05
+
+    ctx.attempt(_c05.newton_loop_rule, ctx)
     ctx.level = "other"
     ctx.explanation = (
         "The elimination solver __Solver_1 is interpreted on a block-labelled system (index sets K/U as opaque selectors): the solve receives A[U,U] and "
